@@ -3,6 +3,7 @@ package c13
 import (
 	"encoding/json"
 	"fmt"
+	"math"
 	"runtime"
 	"strings"
 	"sync"
@@ -48,6 +49,9 @@ type ask struct {
 	ReadDelayUs int `json:"readDelayUs"`
 	// TimeoutKind (never/late): 0 = 2ms, 1 = zero timeout, 2 = negative timeout (both expire at once)
 	TimeoutKind int `json:"timeoutKind"`
+	// Patience (apiTimeout with a reply that does arrive: immediate/deferred): index into patiences, the
+	// timeout the asker is willing to wait; every one of them is far longer than the reply takes
+	Patience int `json:"patience,omitempty"`
 	// BuildDelayUs: the Ask object is built that long before it is asked (prepared batch / retry queue);
 	// the timeout budget starts with the call, not with the construction of the request
 	BuildDelayUs int `json:"buildDelayUs"`
@@ -74,6 +78,9 @@ func (s scenario) String() string {
 			if k.TimeoutKind > 0 {
 				fmt.Fprintf(&sb, "/t%d", k.TimeoutKind)
 			}
+			if k.Patience > 0 {
+				fmt.Fprintf(&sb, "/patience%d", k.Patience)
+			}
 			if k.BuildDelayUs > 0 {
 				fmt.Fprintf(&sb, "/built-%dus", k.BuildDelayUs)
 			}
@@ -99,6 +106,8 @@ type result struct {
 
 const racingTimeout = 1500 * time.Microsecond
 
+var patiences = []time.Duration{10 * time.Second, math.MaxInt64, math.MaxInt64 - 500*time.Microsecond, 10*time.Second + 1, time.Hour + 999*time.Microsecond, math.MaxInt64 / 2}
+
 func genScenario(t *rapid.T) scenario {
 	var s scenario
 	s.Cap = rapid.SampledFrom([]int{-1, -1, 0, 4}).Draw(t, "cap")
@@ -120,6 +129,9 @@ func genScenario(t *rapid.T) scenario {
 			}
 			if a.Lat == latRacing {
 				a.DeltaUs = rapid.IntRange(-300, 300).Draw(t, "delta")
+			}
+			if a.API == apiTimeout && (a.Lat == latImmediate || a.Lat == latDeferred) {
+				a.Patience = rapid.SampledFrom([]int{0, 0, 0, 1, 2, 3, 4, 5}).Draw(t, "patience")
 			}
 			a.Ctor = rapid.IntRange(0, 3).Draw(t, "ctor")
 			if a.Ctor == 1 || a.Ctor == 3 {
@@ -264,7 +276,7 @@ func runScenario(s scenario) result {
 							setFail("C13/wrong-reply", fmt.Sprintf("AskChannel(%d) got %d want %d", id, got, f(id)))
 						}
 					case apiTimeout:
-						timeout := 10 * time.Second
+						timeout := patiences[sp.Patience]
 						switch sp.Lat {
 						case latNever, latLate:
 							timeout = []time.Duration{2 * time.Millisecond, 0, -time.Millisecond}[sp.TimeoutKind]
@@ -280,7 +292,7 @@ func runScenario(s scenario) result {
 						switch sp.Lat {
 						case latImmediate, latDeferred:
 							if err != nil || got != f(id) {
-								setFail("C13/wrong-reply", fmt.Sprintf("AskOnceWithTimeout(%d, 10s) %s = (%d,%v) want (%d,nil)", id, latNames[sp.Lat], got, err, f(id)))
+								setFail("C13/wrong-reply", fmt.Sprintf("AskOnceWithTimeout(%d, %v) %s = (%d,%v) want (%d,nil)", id, timeout, latNames[sp.Lat], got, err, f(id)))
 							}
 						case latNever, latLate:
 							if err != fpgo.ErrActorAskTimeout || got != 0 {
@@ -459,7 +471,7 @@ func TestRegress(t *testing.T) {
 		{Cap: -1, Askers: [][]ask{{{API: apiTimeout, Lat: latNever}, {API: apiTimeout, Lat: latImmediate}}}},
 		{Cap: -1, Askers: [][]ask{{{API: apiTimeout, Lat: latNever, BuildDelayUs: 1500}, {API: apiTimeout, Lat: latLate, BuildDelayUs: 1500, Ctor: 1}}}},
 		{Cap: -1, Askers: [][]ask{{{API: apiChannel, Lat: latImmediate, Ctor: 1, ReadDelayUs: 200}, {API: apiChannel, Lat: latImmediate, Ctor: 3, ReadDelayUs: 20}}}},
-		{Cap: -1, Askers: [][]ask{{{API: apiTimeout, Lat: latNever, TimeoutKind: 1}, {API: apiTimeout, Lat: latLate, TimeoutKind: 2}, {API: apiOnce, Lat: latImmediate, Ctor: 2}}}},
+		{Cap: -1, Askers: [][]ask{{{API: apiTimeout, Lat: latNever, TimeoutKind: 1}, {API: apiTimeout, Lat: latLate, TimeoutKind: 2}, {API: apiOnce, Lat: latImmediate, Ctor: 2}, {API: apiTimeout, Lat: latImmediate, Patience: 1}, {API: apiTimeout, Lat: latDeferred, Patience: 2}}}},
 	}
 	for _, s := range cases {
 		for rep := 0; rep < 5; rep++ {
